@@ -563,6 +563,12 @@ func runC02(w *World, r *Report) {
 					if instrDominates(ld, store) && dataDependsOn(ret.Results[0], ld) {
 						good = true
 					}
+					// the early form: `if ch.Skipped { return false }` in front of everything else
+					if b, isC := constBool(ret.Results[0]); isC && !b && instrDominates(ld, store) {
+						if hasGuard(ret.Block(), func(g guard) bool { return g.cond == ssa.Value(ld) && g.pol }) {
+							good = true
+						}
+					}
 				}
 			})
 		}
